@@ -207,6 +207,19 @@ def run(pid, tier, seed, replay=None):
         for kk, vv in wothers.items():
             others[kk] = others.get(kk, 0) + vv
         tv_states += win.get("trace_validation_states", 0)
+    # Exec/Pipeline::capture and communicate are communicate-style exchanges too: pipelines on the real kernel whose
+    # last command stops reading (head-like) or that push more than the pipes hold must finish
+    pl = {}
+    if replay is None and pid == "C01":
+        from . import api_scen, c_api
+        pscs = [x for x in api_scen.fam_pipelines(seed, tier == "thorough")
+                if x["term"] in ("capture", "communicate") and (x.get("stream") or x["nlines"] >= 20000)]
+        presults, pstates, pblocks, pnote = c_api.run_api(pid, tier, seed, pscs, "C01pl")
+        pnew, pknown, pothers, _, _ = c_api.classify(pid, pscs, presults, pblocks, PREFIX[pid], "api")
+        uniq += pnew
+        known_hits |= set(pknown)
+        tv_states += pstates
+        pl = {"pipelines_run_through_capture_or_communicate": len(presults), "note": pnote}
     samples = []
     for bid in list(blk)[:2]:
         samples.append({"exchange": bid, "scenario": by_id.get(bid.split("#")[0]),
@@ -229,6 +242,7 @@ def run(pid, tier, seed, replay=None):
         "monitors_of_other_properties_fired": others,
         "replay_note": note,
         "thread_based_communicator": win,
+        "pipeline_capture": pl,
         "tlc_generated_behaviours_replayed": sum(1 for s in scs if "events" in s),
         "refinement": {"behaviours_replayed": same + len(drift), "same_system_call_sequence_as_model": same,
                        "drift_examples": drift[:3]},
